@@ -82,6 +82,7 @@ func (p *plan) next(n int) int {
 }
 
 type builder struct {
+	arbEnum int // arbitrary strings written where the schema declares an enum
 	out   []byte
 	p     *plan
 	extra bool // the text has a member the schema does not declare
@@ -193,7 +194,18 @@ func (b *builder) value(s *zzSchema, wrongType bool) aval {
 				allObj = false
 			}
 		}
-		if !allObj || wrongType || s.Disc != "" {
+		if s.Disc != "" && !wrongType {
+			// built from one variant; when its discriminator member is an ARBITRARY string the text may select another
+			// variant, for which the remaining members are undeclared ones - decoders drop those by design, so the
+			// "same JSON value" clause of the round trip does not apply (like the undeclared-member mutation)
+			before := b.arbEnum
+			v := b.value(s.OneOf[b.p.next(n)], false)
+			if b.arbEnum != before {
+				b.extra = true
+			}
+			return v
+		}
+		if !allObj || wrongType {
 			return b.value(s.OneOf[b.p.next(n)], wrongType)
 		}
 		k := b.p.next(n + 1)
@@ -256,6 +268,9 @@ func (b *builder) value(s *zzSchema, wrongType bool) aval {
 			e := s.Enum[b.p.next(len(s.Enum))]
 			b.lit(`"` + e + `"`)
 			return aval{kind: kStr, str: []byte(e)}
+		}
+		if len(s.Enum) > 0 {
+			b.arbEnum++ // an arbitrary string where an enum is declared
 		}
 		return b.strTok()
 	case "boolean":
@@ -729,6 +744,8 @@ func HRound(idx, variant int) {
 	e := &jx.Encoder{}
 	v.(zzEncoder).Encode(e)
 	enc := append([]byte(nil), e.Bytes()...)
+	zz.Observe("text", string(b.out))
+	zz.Observe("enc", string(enc))
 	v2, ok2 := accept(idx, enc)
 	zz.Assert(ok2, "the encoding of an accepted value is accepted again")
 	if !ok2 {
